@@ -9,6 +9,8 @@ compression-like names (old.json.gz) under an explicit type, and the command as 
 with status output on."""
 import json
 
+import base64
+
 NAME = "cli"
 
 TYPES = {
@@ -210,6 +212,38 @@ def gen(rng, tier):
             cases.append(_mk(fs, [args, args], [[0, 1]], lib=True, names=[ln, rn], run_names={1: ["from_document", "to_document"]}, tag="name-vs-neutral"))
         # without an explicit type the guess (ignoring the encoding) decides; the model is told the guess
         cases.append(_mk(fs, [{}], names=[ln, rn], tag="gz-guess"))
+    # (2f) a document given as `-` on standard input is the document given as a file (the type is explicit): text and binary
+    #      documents, also ones that are not UTF-8
+    import plistlib as _pl, pickle as _pk
+    stdin_docs = [("json", J1.encode(), J2.encode()), ("yaml", Y1.encode(), Y2.encode()), ("yaml", Y1.encode("utf-16"), Y2.encode()),
+                  ("plist", _pl.dumps({"a": 1, "b": [1, 2]}, fmt=_pl.FMT_BINARY), _pl.dumps({"a": 2, "b": [1, 3]})),
+                  ("pickle", _pk.dumps({"a": 1, "b": [1, 2]}), _pk.dumps({"a": 2, "b": [1, 3]})),
+                  ("xml", '<?xml version="1.0" encoding="ISO-8859-1"?><a k="\u00e9">caf\u00e9</a>'.encode("latin-1"), b"<a>cafe</a>"),
+                  ("xml", '<?xml version="1.0" encoding="UTF-16"?><a>x</a>'.encode("utf-16"), b"<a>y</a>")]
+    for t, da, db in stdin_docs:
+        fs = {"left.data": {"b64": base64.b64encode(da).decode()}, "right.data": {"b64": base64.b64encode(db).decode()}}
+        c = _mk(fs, [{"from_type": t, "to_type": t}, {"from_type": t, "to_type": t}], [[0, 1]], names=["left.data", "right.data"],
+                run_names={1: ["-", "right.data"]}, tag="stdin-vs-file")
+        c["runs"][1]["stdin_b64"] = base64.b64encode(da).decode()
+        cases.append(c)
+        c = _mk(fs, [{"from_type": t, "to_type": t}, {"from_type": t, "to_type": t}], [[0, 1]], names=["left.data", "right.data"],
+                run_names={1: ["left.data", "-"]}, tag="stdin-vs-file")
+        c["runs"][1]["stdin_b64"] = base64.b64encode(db).decode()
+        cases.append(c)
+    # (2g) an explicit type decides the parser whatever the NAME says: scalars on which JSON and YAML 1.1 disagree, in files
+    #      named *.json but declared YAML (and the reverse)
+    tricky = ('{"a": 1e+16, "b": [1e3, 2E5]}', '{"a": 1e+17, "b": [1e3, 2E5], "c": NaN}')
+    fs = {"old.json": tricky[0], "new.json": tricky[1], "from_document": tricky[0], "to_document": tricky[1]}
+    for args in ({"from_type": "yaml", "to_type": "yaml"}, {"from_mime": TYPES["yaml"][0], "to_mime": TYPES["yaml"][-1]}, {"from_type": "yaml", "to_type": "json5"}):
+        cases.append(_mk(fs, [args, args], [[0, 1]], lib=True, names=["old.json", "new.json"], run_names={1: ["from_document", "to_document"]}, tag="name-vs-neutral"))
+    fs = {"old.yaml": J1, "new.yml": J2, "from_document": J1, "to_document": J2}
+    cases.append(_mk(fs, [{"from_type": "json", "to_type": "json"}] * 2, [[0, 1]], lib=True, names=["old.yaml", "new.yml"], run_names={1: ["from_document", "to_document"]}, tag="name-vs-neutral"))
+    # (2h) the colour flags decide, not the environment: NO_COLOR / FORCE_COLOR / CLICOLOR / TERM settings change nothing
+    for envs in ({"NO_COLOR": "1"}, {"FORCE_COLOR": "1"}, {"CLICOLOR": "0"}, {"CLICOLOR_FORCE": "1"}, {"TERM": "dumb"}, {"NO_COLOR": "1", "TERM": "xterm-256color"}):
+        for extra in (["--color"], ["--no-color"], ["-c"]):
+            c = _mk({"a.json": J1, "b.json": J2}, [{"extra": extra}, {"extra": extra}], [[0, 1]], tag="env-vs-flag")
+            c["runs"][1]["env"] = envs
+            cases.append(c)
     # (2e) the command as a real process writing to a pipe, with status output on (the status writer buffers lines only
     #      on the process's own stdout); strings holding characters that str.splitlines() treats as line ends
     odd = ODD if tier == "thorough" else [ODD[0], ODD[1], rng.choice(ODD[2:])]
@@ -255,7 +289,7 @@ def impl(case):
                 got.append(_opts_of(self))
             graphtage.BuildOptions.__init__ = spy
             try:
-                o = clirun.run_main(r["argv"], d)
+                o = clirun.run_main(r["argv"], d, stdin_bytes=base64.b64decode(r["stdin_b64"]) if r.get("stdin_b64") else None, env=r.get("env"))
             finally:
                 graphtage.BuildOptions.__init__ = orig_bo
             o["opts"] = got[0] if got else None
